@@ -4,7 +4,7 @@ from pyvc.symexec import Source
 from pyvc.contracts import verify_contract
 from pyvc.models import Models
 src=Source()
-import contracts.v2version, contracts.lexid_
+import contracts
 from contracts.common import REG
 for qn in sys.argv[1:]:
     t=time.time()
